@@ -147,5 +147,6 @@ def run(check, ctx):
     crules.copy_whole_state(check, ctx.cdb, "src/keccak.c", "keccak_copy")
     # OCB: an empty chunk is not the final call (every permitted sequence yields the one-shot result)
     from . import C09 as _c09
+    _c09.ocb_transcrypt_seg(check, ctx.repo, rule="T-seg")
     check.undecided.append("every permitted sequence yields the one-shot "
                            "ciphertext/plaintext/tag (values)")
